@@ -19,6 +19,7 @@ def plan(tier, seed):
                env=dict(VERIF_SLEN=sl, VERIF_KIND=kind))
         j["name"] += "[kind=%d]" % kind
         jobs.append(j)
+    jobs.append(ch("C14", F, "h_paths_mixed_levels", t, ["api.paths_to_cats", "api._path_to_cats"]))
     jobs.append(ch("C14", F, "h_many_fast_parsed", t, ["util.metadata_from_many (footer-gathering path)",
                                                           "util._get_fmd"]))
     envc = dict(VERIF_ENC="dict", VERIF_OUT="cat", VERIF_OPTIONAL=0, VERIF_WIDTH=8, VERIF_SELFMADE=1)
